@@ -72,10 +72,14 @@ func relayScenario() {
 
 	var sentA, sentB, sentI [relayMax][3]byte
 	for i := 0; i < relayMax; i++ {
-		// first data byte arbitrary; status: A = Note On, B = Control Change, input = Note Off (channel = index)
-		sentA[i] = [3]byte{0x90 | byte(i), verifrt.U8(verifrt.N("a.d1", i)) & 0x7f, byte(0x10 + i)}
-		sentB[i] = [3]byte{0xb0 | byte(i), verifrt.U8(verifrt.N("b.d1", i)) & 0x7f, byte(0x20 + i)}
-		sentI[i] = [3]byte{0x80 | byte(i), verifrt.U8(verifrt.N("i.d1", i)) & 0x7f, byte(0x30 + i)}
+		// first data byte arbitrary (SYM=1) or fixed; status: A = Note On, B = Control Change, input = Note Off (channel = index)
+		da, db, di := byte(0x41+i), byte(0x51+i), byte(0x61+i)
+		if verifrt.Param("SYM", 1) != 0 {
+			da, db, di = verifrt.U8(verifrt.N("a.d1", i))&0x7f, verifrt.U8(verifrt.N("b.d1", i))&0x7f, verifrt.U8(verifrt.N("i.d1", i))&0x7f
+		}
+		sentA[i] = [3]byte{0x90 | byte(i), da, byte(0x10 + i)}
+		sentB[i] = [3]byte{0xb0 | byte(i), db, byte(0x20 + i)}
+		sentI[i] = [3]byte{0x80 | byte(i), di, byte(0x30 + i)}
 	}
 	var atPort, atDevices relayLog
 
